@@ -7,6 +7,7 @@ import (
 	"sync"
 	"sync/atomic"
 
+	"github.com/go-kid/ioc/component_definition"
 	"github.com/go-kid/ioc/container"
 	"github.com/go-kid/ioc/container/processors"
 	"github.com/go-kid/ioc/definition"
@@ -175,6 +176,9 @@ type RegistrarPP struct {
 	Nodes []Node
 	// Names, when set, are the names the definitions are registered under (instead of the nodes' own)
 	Names []string
+	// ViaRegisterMeta: the definitions are built by the contributor and handed over with RegisterMeta
+	// (instead of get-or-register)
+	ViaRegisterMeta bool
 }
 
 func (f *RegistrarPP) Naming() string { return "verif.registrar" }
@@ -189,6 +193,12 @@ func (f *RegistrarPP) PostProcessComponentFactory(factory container.Factory) err
 		name := n.DisplayName()
 		if i < len(f.Names) {
 			name = f.Names[i]
+		}
+		if f.ViaRegisterMeta {
+			m := component_definition.NewMeta(n)
+			m.SetName(name)
+			factory.GetDefinitionRegistry().RegisterMeta(m)
+			continue
 		}
 		factory.GetDefinitionRegistry().GetMetaOrRegister(name, n)
 	}
